@@ -48,3 +48,5 @@ func q(s string) string {
 	}
 	return strings.ReplaceAll(strings.ReplaceAll(s, "\n", "⏎"), "\t", "⇥")
 }
+
+func randFor(a, b uint64) *rand.Rand { return rand.New(rand.NewPCG(a, b^0x9E3779B97F4A7C15)) }
